@@ -14,6 +14,7 @@ import IocProofs.Lemmas.Config
 import IocProofs.Lemmas.ConfigSeq
 import IocProofs.Lemmas.ConfigInit
 import IocProofs.Lemmas.SemConfigure
+import IocProofs.Lemmas.SemAppOptions
 namespace Ioc.C15
 open Ioc Ioc.Config
 
@@ -424,5 +425,31 @@ example : ((runPhase (St.appCmd cPairs) cOpts).toOption.map fun s =>
       (s.acc.get [ka, kb], s.acc.get [ka, kc], s.acc.get [ka, ofString "d"])) =
     some (some (sv "raw"), some (sv "7"), some (sv "f")) := by decide
 end examples
+
+/-! ### the REGENERATED start options of package app (app/options.go)
+
+    Every option constructor returns a function literal; it is translated curried (the App last).  The loaders reach the
+    Configure AS THEY WERE GIVEN (no wrapper in between: the ordering markers of a loader stay visible to
+    `SortOrderedComponents`), `SetConfig(path)` adds a file loader, and every configure option acts on the Configure the App
+    holds when the option runs. -/
+section options
+open Ioc.Go Ioc.Sem
+
+theorem C15_code_loader_options (ls b : Go.Val) (p : String) (w : AW) :
+    run aoptPrims Progs.aopt_AddConfigLoader [ls, .ref 0 1] w =
+      some (.tuple [], { w with cfgOps := w.cfgOps ++ [(w.configure, .addLoaders ls)] }) ∧
+    run aoptPrims Progs.aopt_SetConfigLoader [ls, .ref 0 1] w =
+      some (.tuple [], { w with cfgOps := w.cfgOps ++ [(w.configure, .setLoaders ls)] }) ∧
+    run aoptPrims Progs.aopt_SetConfig [.str p, .ref 0 1] w =
+      some (.tuple [], { w with cfgOps := w.cfgOps ++ [(w.configure, .addLoaders (.tuple [.str "file", .str p]))] }) ∧
+    run aoptPrims Progs.aopt_SetConfigBinder [b, .ref 0 1] w =
+      some (.tuple [], { w with cfgOps := w.cfgOps ++ [(w.configure, .setBinder b)] }) :=
+  ⟨addConfigLoader_sem ls w, setConfigLoader_sem ls w, setConfig_sem p w, setConfigBinder_sem b w⟩
+
+theorem C15_code_SetConfigure (c : Nat) (w : AW) :
+    run aoptPrims Progs.aopt_SetConfigure [.ref c 4, .ref 0 1] w = some (.tuple [], { w with configure := c }) :=
+  setConfigure_sem c w
+
+end options
 
 end Ioc.C15
